@@ -157,7 +157,7 @@ func (l *ledger) afterContext(w *world, a []uint64, st ucon.VerifC03Step, evs []
 
 func (l *ledger) afterVote(w *world, a []uint64, st ucon.VerifC03Step, evs []string) {
 	// a = vt r i h p sender votes status nil sig claim stake kind T cred
-	eligible := a[8] == 0 && a[9] != 0 && a[10] != 0 && a[11] != 0 && a[14] != 0 && (a[12] == 1 || a[12] == 2) && a[0] >= 2 && a[0] <= 5
+	eligible := a[8] == 0 && a[9] == 1 && a[10] != 0 && a[11] != 0 && a[14] != 0 && (a[12] == 1 || a[12] == 2) && a[0] >= 2 && a[0] <= 5
 	if w.e2e != nil && !w.e2e.inSet(a[5], a[0]) {
 		eligible = false
 	}
